@@ -81,6 +81,40 @@ def work(shard, tier):
                         cells.add((name, cls, repr(sorted(opts.items()))))
                         if len(samples) < 2 and rng.random() < 0.01:
                             samples.append({'module': name, 'class': cls, 'input': x, 'result': o1[1]})
+        if name == 'gs1_128':
+            # element strings generated from the AI table (every registered AI), with and without separator
+            import os
+            from vm import c16, gs1gen
+            ais = gs1gen.read_ais(os.path.join(C.REPO, 'stdnum', 'gs1_ai.dat'))
+            for i in range(2500 if tier == 'quick' else 40000):
+                k = rng.choice((1, 2, 2, 3))
+                chosen = [ais[i % len(ais)]] + rng.sample(ais, k - 1)
+                sep = rng.choice(('', '', '|', '\x1d'))
+                items = []
+                try:
+                    for ai, props in chosen:
+                        raw = gs1gen.raw_value(props['format'], props.get('type', 'str'), rng, rng.choice(('min', 'max', 'random')), forbid='()|\x1d', max_decimals=2)
+                        if ai in ('01', '02'):
+                            from stdnum import ean as _ean
+                            raw = raw[:13] + _ean.calc_check_digit(raw[:13])
+                        if ai == '8007':
+                            raw = 'NL91ABNA0417164300'
+                        items.append((ai, props, raw.strip() or 'A'))
+                except gs1gen.UnsupportedFormat:
+                    continue
+                items.sort(key=lambda t: (bool(t[1].get('fnc1')), t[0]))
+                x = c16.build(items, sep, rng.random() < 0.3, rng)
+                if x is None:
+                    continue
+                o1, o2 = check_one(name, mod, x, {'separator': sep} if sep else {}, 'generated-element-string', viols)
+                evals += 1
+                if o2 is not None:
+                    evals += 1
+                    counters['accepted'] += 1
+                    counters['refed'] += 1
+                    if o1[1] != x:
+                        nonc += 1
+                        cells.add((name, 'generated', items[0][1]['format']))
         # table-driven spellings (court names, aliases, region prefixes ...): every module string constant
         # substituted for the constant found in a valid number; identity presentation only
         for x in C.constant_variants(name, C.corpus(name), rng, cap=1000):
